@@ -7,6 +7,8 @@ CONSTANTS
   Names = {"n1"}
   MaxRefs = 1
   Emit = TRUE
+  AliasMods = {"e", "a", "b"}
+  NsAlias = FALSE
   ModRefs = FALSE
 INVARIANT Agree
 INVARIANT Closed
